@@ -110,6 +110,10 @@ pub fn gen_seq_case(run_seed: u64, tier: Tier) -> ThrCase {
             kind: *rng.pick(&[crate::ds::Flat::RSWide, crate::ds::Flat::RSWide, crate::ds::Flat::RSNarrow, crate::ds::Flat::DArray, crate::ds::Flat::DArray0]),
             bits: crate::spec::gen_long_run_bits(&mut rng),
         },
+        2 => Spec::Bits {
+            kind: *rng.pick(&[crate::ds::Flat::DArray, crate::ds::Flat::DArray0, crate::ds::Flat::DArray, crate::ds::Flat::RSNarrow, crate::ds::Flat::RSWide]),
+            bits: crate::spec::gen_inventory_shaped_bits(&mut rng),
+        },
         _ => gen_spec(&mut rng, Tier::Thorough),
     };
     ThrCase {
